@@ -69,6 +69,10 @@ COMMANDS = ['help', 'list', 'filter', 'breakpoint', 'matcher', 'connection', 're
             'list ' + 'a,' * 300, 'filter ' + '!' * 3, 'list (x=)', 'list .(nil)', 'list (nil)', 'list @', 'list #', 'list @a', 'list 5ZZZZZZZZZZZZ',
             'list 99999999999999999999999', 'list :', 'list ::', 'list a:b:c', 'list .', 'list ..', 'list ()', 'list (=)', 'list (,)', 'list ,',
             'list (1.5)', 'list (-0)', 'list (+1)', 'list ( 1 )', 'list (nan)', 'list (inf)', 'list (1e400)', 'list ("\\")']
+# every command word (names, abbreviations, GDB spellings) followed by every other one: `help resume`, `h q`, `wl help qui`, ...
+_WORDS = ['help', 'list', 'filter', 'breakpoint', 'matcher', 'connection', 'resume', 'quit', 'h', 'l', 'f', 'b', 'm', 'c', 'r', 'q',
+          'he', 'res', 'qui', 'conn', 'break', 'wlhelp', 'wlresume', 'wlquit', 'wllist', 'wl', 'all', '~', '~ 0', '~ 1']
+COMMANDS += [a + ' ' + b for a in _WORDS for b in _WORDS] + ['wl ' + a + ' ' + b for a in _WORDS[:8] for b in _WORDS[:11]]
 ALPHABET = ['a', '1', '*', ',', '!', ':', '.', '(', ')', '[', ']', '=', '@', '"', ' ', '#']
 
 
@@ -188,8 +192,13 @@ def run(ctx):
     # (a) fuzzed logs in-process, with commands typed against the state they leave
     runs, msgs, streams = [], [], []
     traces = []
-    for k in range(ctx.pick(400, 4000)):
+    nsess = ctx.pick(400, 4000)
+    per = (len(COMMANDS) + nsess - 1) // nsess
+    for k in range(nsess):
         tr, lines = fuzz_trace(ctx.seed * 7368787 + k, r.randint(8, 40))
+        # every listed command line is typed at least once in a run (against some session state), the rest is sampled
+        for text in COMMANDS[k * per:(k + 1) * per]:
+            tr['events'].append({'in': {'e': 'cmd', 'c': 'other', 'text': text}})
         for _ in range(r.randint(3, 10)):
             tr['events'].append({'in': {'e': 'cmd', 'c': 'other', 'text': r.choice(COMMANDS) if r.random() < 0.8 else
                                         ''.join(r.choice(ALPHABET + list('lfbmchqr ~')) for _ in range(r.randint(1, 12)))}})
